@@ -117,6 +117,18 @@ CHECKS = {
             {"pkg": "pkg/sql/ast", "harness": "VxC14_Deep", "expect_asserts": ["C14.deep"]},
         ] + parruns(["VxSoup_Start2", "VxSoup_Select2", "VxSoup_From2", "VxSoup_Where2"], ["VxSoup_Start3", "VxSoup_Select3", "VxSoup_From3", "VxSoup_Where3"], ["C14.tree_visits"]),
     },
+    "C15": {
+        "bounds": {"quick": "statements generated as parser tokens from (nesting context) x (clause features): 15 contexts (plain, derived table, EXISTS, scalar comparison, IN sub-query, CTE, UNION ALL arm, EXCEPT, joined derived table, scalar select item, INSERT..SELECT, UPDATE/DELETE..WHERE EXISTS, UPDATE SET = (sub-query), WITH..INSERT) x 21 clause features of the inner SELECT (qualified column, function, column alias, nested functions, window PARTITION/ORDER, table alias, schema qualifier, second FROM item, JOIN ON, LEFT JOIN with aliases, JOIN USING, two joins (synthetic left name), CROSS JOIN, WHERE with string literal / function / IS NULL, GROUP BY..HAVING, ORDER BY column / function, DISTINCT..LIMIT); every pair of features on a plain SELECT; 7 DML shapes (INSERT VALUES / RETURNING / ON CONFLICT, UPDATE, DELETE, MERGE with UPDATE+INSERT, MERGE with DELETE). Every name position holds a finite-domain symbolic name from a two-name pool shared between tables and aliases (columns: {ca, ta}); the solver decides which positions coincide",
+                   "thorough": "additionally every pair of nesting contexts (15 x 10) around a plain SELECT"},
+        "outside": "layout independence (the harness starts from tokens; whitespace/comment insensitivity of the token stream is the tokenizer's, C04/C05); constructs the package documents as limited (CASE, CAST, BETWEEN, recursive CTEs); TRUNCATE/DDL targets; MERGE with a sub-query source (rejected by the parser); pools larger than two names; three or more features at once",
+        "assumptions": ["the plain ExtractTables variant may report a schema-qualified table either as written (sa.ta) or by its last part; the qualified variant must preserve the qualifier", "a CTE's defining name is not a table position; a FROM item naming it is"],
+        "runs": [
+            {"pkg": "pkg/gosqlx", "harness": "VxC15_DML", "expect_asserts": ["C15.tables_complete", "C15.columns_complete", "C15.functions_complete"]},
+            {"pkg": "pkg/gosqlx", "harness": "VxC15_Pair", "expect_asserts": ["C15.tables_no_extra", "C15.qtables_complete", "C15.qcolumns_no_extra", "C15.functions_no_extra", "C15.seen_parsed"]},
+            {"pkg": "pkg/gosqlx", "harness": "VxC15_Ctx1", "expect_asserts": ["C15.tables_complete", "C15.columns_no_extra", "C15.seen_parsed"]},
+            {"pkg": "pkg/gosqlx", "harness": "VxC15_Ctx2", "tiers": ["thorough"], "expect_asserts": ["C15.tables_complete"]},
+        ],
+    },
     "C16": {
         "bounds": {"quick": "7 payload families (tautology with numbers, with symbolic two-letter string contents, with identifiers; SLEEP / PG_SLEEP calls, LOAD_FILE, BENCHMARK(..., LOAD_FILE(...)) with symbolic letter case) x 10 positions the scanner covers (WHERE, redundant parentheses, AND / OR / NOT operands, HAVING, UPDATE and DELETE WHERE, UNION arm, comment/whitespace layout) and x 9 nested positions of the property's list (known finding); severity threshold: 6 statements x {LOW, MEDIUM, HIGH, CRITICAL, invalid}: exact filtering, counts, repeatability, tree untouched (write monitor)",
                    "thorough": "same (the space is finite and explored completely)"},
